@@ -25,3 +25,51 @@ M("M_C01_d", ["C01"], "cotengra/core.py",
   "            (len(term) != len(legs))\n            or",
   "            (len(term) > len(legs) + 1)\n            or",
   "leaf with an index repeated exactly twice not pre-processed", ["tests/test_compute.py"])
+
+# ------------------------------- C02 --------------------------------------
+M("M_C02_a", ["C02"], "cotengra/core.py",
+  "        tree.already_optimized.clear()\n        # n.b. also resets nodes that only depend on ``ind`` via their children\n        tree.reset_contraction_indices()",
+  "        tree.already_optimized.clear()",
+  "remove_ind no longer invalidates recipes/compiled cores", ["tests/test_tree.py"])
+M("M_C02_b", ["C02", "C04"], "cotengra/core.py",
+  "                del self.info[node]\n",
+  "                self.info[node].pop('involved', None)\n",
+  "_remove_node keeps info of removed intermediate nodes", ["tests/test_tree.py"])
+M("M_C02_c", ["C02", "C04"], "cotengra/core.py",
+  "                {k: v.copy() for k, v in getattr(other, attr).items()},",
+  "                {k: (v if len(k) == 2 else v.copy()) for k, v in getattr(other, attr).items()},",
+  "copy shares the info dicts of 2-leaf nodes between trees", ["tests/test_tree.py"])
+M("M_C02_d", ["C02"], "cotengra/pathfinders/path_simulated_annealing.py",
+  "    # the contraction index ordering of any parents of rotated nodes, and any\n    # compiled contractions, are now stale\n    tree.reset_contraction_indices()\n",
+  "",
+  "revert of the anneal part of the reset fix", ["tests/test_tree.py"])
+M("M_C02_e", ["C02"], "cotengra/core.py",
+  "                legs = {ix: legs[ix] for ix in self.output if ix in legs}\n",
+  "                pass\n",
+  "revert of the root-legs-order fix (F1)", ["tests/test_tree.py"])
+M("M_C02_f", ["C02", "C06"], "cotengra/core.py",
+  "            axes = output_pos[remaining[0]] - len(loc)",
+  "            axes = output_pos[remaining[0]] - (len(loc) if len(loc) < 2 else 1)",
+  "gather_slices stacks on the wrong axis from the 3rd sliced output index on", ["tests/test_tree.py"])
+
+# ------------------------------- C04 --------------------------------------
+M("M_C04_a", ["C04"], "cotengra/core.py",
+  "            if self._track_write:\n                self._write -= self.get_size(node)\n",
+  "            if self._track_write and len(node) != 2:\n                self._write -= self.get_size(node)\n",
+  "_remove_node forgets to subtract write for 2-leaf nodes", ["tests/test_tree.py"])
+M("M_C04_b", ["C04"], "cotengra/utils.py",
+  "            if x == self._max_element:\n",
+  "            if x == self._max_element and len(self._c) > 1:\n",
+  "MaxCounter.discard keeps a stale maximum when the last element goes", ["tests/test_tree.py"])
+M("M_C04_c", ["C04"], "cotengra/core.py",
+  "                    tree._write += new_size - old_size",
+  "                    tree._write += new_size - old_size if new_size > 1 else 0",
+  "remove_ind skips the write delta when a node shrinks to a scalar", ["tests/test_tree.py"])
+M("M_C04_d", ["C04"], "cotengra/core.py",
+  "        for node in tree.children:\n            tree.get_involved(node)\n",
+  "",
+  "revert of the involved-before-remove_ind fix (F2)", ["tests/test_tree.py"])
+M("M_C04_e", ["C04"], "cotengra/core.py",
+  "        tree.multiplicity //= si.size",
+  "        tree.multiplicity //= (si.size if si.project is None else tree.size_dict[ind])",
+  "restore_ind of a projected index divides the multiplicity by the full size", ["tests/test_tree.py"])
